@@ -56,7 +56,9 @@ theorem digitsRev_range (fuel n : Nat) : âˆ€ b âˆˆ digitsRev fuel n, 48 â‰¤ b âˆ
 /-- `uint64(Atoi(Itoa(int(n)))) = n` -/
 theorem parseSize_encodeNat (n : Nat) (h : n < 2 ^ 63) : parseSize (encodeNat n) = some n := by
   have hv := digitsVal_digitsRev (n + 1) n (by omega)
-  unfold encodeNat at *
+  have e : encodeNat n = encodeDec n := by simp [encodeNat, h]
+  rw [e]
+  unfold encodeDec at *
   cases hl : (digitsRev (n + 1) n).reverse with
   | nil => simp at hl; exact absurd hl (digitsRev_ne_nil n n)
   | cons c t =>
